@@ -47,7 +47,9 @@ def binding_demo(run, lines, kind, field_lo, field_hi, big, small, rejected=()):
         return
     out = []
     for e in picks:
-        for delta, expect in ((big, True), (-big, True), (small, False)):
+        # big is more than twice the tolerance: whatever an accepted observation's own deviation,
+        # the shifted one is outside.  A small shift is accepted in at least one direction.
+        for delta, expect in ((big, True), (-big, True), (small, False), (-small, False)):
             v = fromlimbs(e[field_lo]) + delta
             if v < 0:
                 continue
@@ -61,11 +63,26 @@ def binding_demo(run, lines, kind, field_lo, field_hi, big, small, rejected=()):
             o.write(json.dumps(f) + "\n")
     results, rejects, dl = vlib.validate_trace("TraceColour", "TraceColour.cfg", p, shards=1, heap="2g", workers=4)
     rej = {n for n, _ in rejects}
+    problem = None
+    small_ok = {}
     for n, f in enumerate(out):
-        if (n in rej) != f["_expect_reject"]:
-            raise vlib.Infra("binding demonstration failed: corrupted observation %s was %s" % (
-                json.dumps(f)[:200], "rejected" if n in rej else "accepted"))
+        if f["_expect_reject"]:
+            if n not in rej:
+                problem = "corrupted observation %s was accepted" % json.dumps(f)[:200]
+        else:
+            key = (f["space"], f["depth"], f["code"])
+            small_ok[key] = small_ok.get(key, False) or n not in rej
+    for key, ok in small_ok.items():
+        if not ok:
+            problem = "a shift well inside the tolerance was rejected in both directions for %s" % (key,)
     run.cov["binding_demo_corrupted_events"] = len(out)
+    if problem:
+        # with rejected observations present (a violation is being reported) the code's values are not
+        # where the demonstration assumes them: then it is only noted
+        if rejected:
+            run.note("binding demonstration inconclusive on a tree with violations: " + problem)
+        else:
+            raise vlib.Infra("binding demonstration failed: " + problem)
 
 
 FIRSTUSE = ["d-from16", "d-enc-nrgba64", "d-enc-rgba64", "d-enc-gray16", "d-enc-nrgba", "d-enc-gray", "d-lin-nrgba64",
@@ -126,7 +143,7 @@ def check_c01(run, tier, drive):
                          "exact_relation": "every 8-bit code; 16-bit: %s" % (
                              "every code" if tier == "thorough" else
                              "multiples of 257, junctions +-8, first/last 64, 2048 stratified seeded codes per space")}
-    binding_demo(run, lines, "decode", "ylo", "yhi", 4 * 10 ** 11, 10 ** 11 // 2, [n for n, _ in rejects])
+    binding_demo(run, lines, "decode", "ylo", "yhi", 7 * 10 ** 11, 10 ** 11 // 2, [n for n, _ in rejects])
     run.sample(json.loads(lines[7]))
     for n, pr in rejects[:12]:
         ev = json.loads(lines[n])
